@@ -213,4 +213,10 @@ def main(argv=None):
 
 
 if __name__ == "__main__":
-    sys.exit(main())
+    try:
+        sys.exit(main())
+    except (Exception, KeyboardInterrupt):  # a failure of the driver is never a verdict
+        import traceback
+        traceback.print_exc()
+        print(f"INCONCLUSIVE property={sys.argv[1] if len(sys.argv) > 1 else '?'} driver failed")
+        sys.exit(2)
